@@ -613,6 +613,17 @@ func HoldsElidedToken(g *Grammar, v reflect.Value) bool {
 	return false
 }
 
+// PlainNoElided is Plain with elided-type tokens dropped from []lexer.Token fields: a captured token
+// list is one of the places where elided tokens are "asked for" and may differ between two
+// renderings of the same non-elided tokens.
+func PlainNoElided(g *Grammar, v reflect.Value) string {
+	plainElide = g
+	defer func() { plainElide = nil }()
+	return plain(v, false)
+}
+
+var plainElide *Grammar
+
 func plain(v reflect.Value, mask bool) string {
 	for v.Kind() == reflect.Ptr || v.Kind() == reflect.Interface {
 		if v.IsNil() {
@@ -656,6 +667,11 @@ func plain(v reflect.Value, mask bool) string {
 		var sb strings.Builder
 		sb.WriteString("[")
 		for i := 0; i < v.Len(); i++ {
+			if plainElide != nil && v.Type() == tToks {
+				if t := v.Index(i).Interface().(lexer.Token); plainElide.IsElided(plainElide.Prof().TypeName(t)) {
+					continue
+				}
+			}
 			sb.WriteString(plain(v.Index(i), mask) + ",")
 		}
 		sb.WriteString("]")
